@@ -11,7 +11,10 @@ import generator as G
 import encoder as E
 
 ROOT = '/verif'
-BUILD = os.path.join(ROOT, '.build')
+sys.path.insert(0, os.path.join(ROOT, 'bin'))
+import nativelib
+REPO = nativelib.REPO
+BUILD = nativelib.BUILD
 NATIVE = os.path.join(BUILD, 'native', 'debug')
 ENV = dict(os.environ, CARGO_NET_OFFLINE='true', CARGO_TARGET_DIR=os.path.join(BUILD, 'native'))
 
@@ -21,7 +24,7 @@ def log(*a):
 
 
 def build_native():
-    p = subprocess.run(['cargo', 'build', '--offline', '--bins'], cwd=os.path.join(ROOT, 'native'), env=ENV,
+    p = subprocess.run(['cargo', 'build', '--offline', '--bins'], cwd=nativelib.native_dir(), env=ENV,
                        stdout=subprocess.PIPE, stderr=subprocess.STDOUT, text=True)
     if p.returncode != 0:
         return p.stdout[-3000:]
@@ -114,7 +117,7 @@ def run_c05(prop, tier, seed):
         fam += G.family(3, with_macros=True)
     # the repository's own fixtures
     fixtures = []
-    fx_dir = '/repo/minijinja/tests/inputs'
+    fx_dir = os.path.join(REPO, 'minijinja/tests/inputs')
     for fn in sorted(os.listdir(fx_dir)):
         if fn.endswith(('.txt', '.html')):
             txt = open(os.path.join(fx_dir, fn), encoding='utf-8').read()
@@ -172,7 +175,7 @@ def run_c05(prop, tier, seed):
         known = {f['id']: f for f in json.load(open(kp)).get('findings', [])}
     kf_rec = known.get('KF-C05-recursive-else')
     kf_rec_reproduced = None
-    os.makedirs(os.path.join(ROOT, 'evidence', 'replay'), exist_ok=True)
+    nativelib.replay_dir()
     n_replayed = n_confirmed = 0
     untypable_fixtures = []
     seen_viol = set()
@@ -204,7 +207,7 @@ def run_c05(prop, tier, seed):
                 continue
             seen_viol.add(key)
             h = hashlib.sha1(p['src'].encode()).hexdigest()[:10]
-            rp = os.path.join(ROOT, 'evidence', 'replay', '%s-B-%s.json' % (prop, h))
+            rp = os.path.join(nativelib.replay_dir(), '%s-B-%s.json' % (prop, h))
             ctxs = contexts() if 'ctx' not in p else [p['ctx']]
             json.dump(dict(property=prop, engine='B', program=p['src'], unit=u.name, conflict=_js(conflict),
                            native=[dict(context_index=i, context=ctxs[i], outcome=outs[i], why=w) for i, w in bad[:3]],
@@ -296,7 +299,7 @@ def run_c18(prop, tier, seed):
     z3_s = 0.0
     agg = {}
     samples = []
-    os.makedirs(os.path.join(ROOT, 'evidence', 'replay'), exist_ok=True)
+    nativelib.replay_dir()
     n_confirmed = 0
     unconfirmed = []
     for p in fam:
@@ -332,7 +335,7 @@ def run_c18(prop, tier, seed):
                 n_confirmed += 1
                 if len(ev['violations']) < 5:
                     h = hashlib.sha1(p['src'].encode()).hexdigest()[:10]
-                    rp = os.path.join(ROOT, 'evidence', 'replay', '%s-B-%s.json' % (prop, h))
+                    rp = os.path.join(nativelib.replay_dir(), '%s-B-%s.json' % (prop, h))
                     json.dump(dict(property=prop, engine='B', program=p['src'], reported=d['undeclared'], bytecode_path=_js(info),
                                    native=dict(context=contexts()[hit[0]], reads=hit[2]['reads'], unreported_reads=hit[1]),
                                    how='bin/check %s --replay %s' % (prop, rp)), open(rp, 'w'), indent=1)
